@@ -436,7 +436,7 @@ func typesFor(where string, depth int, cfg Cfg) []string {
 var ptrTypes = []string{"str", "bool", "int", "int8", "int16", "int32", "int64", "uint", "uint8", "uint16", "uint32", "uint64", "float32", "float64", "time", "dur"}
 
 func (g *G) errInto(v *Val, label string) {
-	v.EK = rapid.SampledFrom([]string{"plain", "plain", "plain", "nil", "typednil", "objerr", "stacked"}).Draw(g.t, label+".ek")
+	v.EK = rapid.SampledFrom([]string{"plain", "plain", "plain", "nil", "typednil", "objerr", "stacked", "nilslice"}).Draw(g.t, label+".ek")
 	if v.EK == "stacked" && g.cfg.C08 {
 		v.EK = "plain" // stack frames differ between the two processes of the differential run
 	}
